@@ -197,6 +197,17 @@ pub fn always_matches(binding_sets: &[BindingSet]) -> bool {
     binding_sets.iter().any(|bs| bs.requirements.is_empty())
 }
 
+/// Whether `name` is bound to the matched value itself (the empty path) by every binding set that
+/// binds it — `=x`, `=('t)x` — rather than to a part of it (`=A[x]`, `=(f: x)`).
+pub fn binds_whole_value(binding_sets: &[BindingSet], name: &str) -> bool {
+    binding_sets.iter().all(|bs| {
+        bs.bindings
+            .iter()
+            .filter(|binding| binding.name == name)
+            .all(|binding| binding.path.is_empty())
+    })
+}
+
 /// Resolve the local index of every variable pinned (`&x`) by these binding sets. Must be called
 /// with the scopes as they are *before* the pattern's own bindings are registered: a pattern may
 /// bind the very name it pins (`[p, &p] = …`), and the pin refers to the existing variable.
